@@ -248,6 +248,9 @@ func (ex *Exec) evalCall(c *ECall, env *CEnv, want string) TV {
 		args = append(args, t)
 	}
 	r := app(sf.Ret, sf.Name, args...)
+	if len(args) == 0 {
+		r = &Term{S: sf.Name, Sort: sf.Ret}
+	}
 	if isBV(sf.Ret) {
 		r.Signed = true
 	}
